@@ -56,11 +56,51 @@ let string_of_str (l : M.n list) : string =
 
 let text a = codepoints (unhex a)
 
+(* builder scripts: one command per line, command word, one space, rest of line verbatim *)
+exception Bad_script
+let split_cmd (l : string) : string * string =
+  match String.index_opt l ' ' with
+  | Some i -> (String.sub l 0 i, String.sub l (i + 1) (String.length l - i - 1))
+  | None -> (l, "")
+let is_decimal (s : string) = s <> "" && String.for_all (fun c -> c >= '0' && c <= '9') s
+let num (s : string) : M.n = if is_decimal s then n_of_decimal s else raise Bad_script
+let flag (s : string) : bool = match s with "1" -> true | "0" -> false | _ -> raise Bad_script
+let bop_of_line (l : string) : M.bop =
+  let (c, a) = split_cmd l in
+  match c with
+  | "Tn" -> M.BTarget (num a)
+  | "M" -> M.BMseq (num a)
+  | "D" -> M.BDseq (num a)
+  | "P" -> (match a with "event" -> M.BPtype (Some (n_of_int 0)) | "vod" -> M.BPtype (Some (n_of_int 1))
+                        | "none" -> M.BPtype None | _ -> raise Bad_script)
+  | "I" -> M.BIframes (flag a)
+  | "N" -> M.BIndep (flag a)
+  | "E" -> M.BEndlist (flag a)
+  | "S" -> M.BStart (codepoints a)
+  | "X" -> M.BExcess (num a)
+  | "U" -> M.BUnknownAdd (codepoints a)
+  | "unknown" -> M.BUnknownSet
+  | "seg" -> if a = "-" then M.BSegBegin None else M.BSegBegin (Some (num a))
+  | "dur" -> M.BSegDur (num a)
+  | "tag" -> M.BSegTag (codepoints a)
+  | "uri" -> M.BSegUri (codepoints a)
+  | "end" -> (match a with "push" -> M.BSegEndPush | "list" -> M.BSegEndList | _ -> raise Bad_script)
+  | "segments" -> M.BSegments
+  | "build" -> M.BBuild
+  | _ -> raise Bad_script
+let run_script (script : string) : string =
+  let lines = List.filter (fun l -> l <> "") (String.split_on_char '\n' script) in
+  match (try Some (List.map bop_of_line lines) with Bad_script -> None) with
+  | None -> "badscript"
+  | Some ops -> string_of_str (M.run_builder ops)
+
 let dispatch (op : string) (args : string list) : string =
   match op, args with
   | "media", [a] -> string_of_str (M.run_media (text a))
   | "media_excess", [a; ns] -> string_of_str (M.run_media_with (M.with_excess (n_of_decimal ns)) (text a))
   | "master", [a] -> string_of_str (M.run_master (text a))
+  | "tag", [ty; a] -> string_of_str (M.run_tag (codepoints ty) (text a))
+  | "bmedia", [a] -> run_script (unhex a)
   | _ -> "badop"
 
 let () =
